@@ -243,12 +243,17 @@ def run_C09(tier, seed):
     for tid, fails in res.fails.items():
         if fails:
             v.violation({'clauses': fails, 'event': byid[tid]})
+    # (d) the same quantities as the SOLVER records them: every recorded instant of the shared campaign (held and moving chains alike)
+    from . import solver_drv
+    solver_drv.campaign_part(v, 'C09', tier, seed, 'recorded tangential force / bending stress / contact stress of every gear at every recorded instant '
+                             'against Gear.tla evaluated with the torques recorded at that instant (SolverOps!StressFails)')
     import json
     v.distinct = len({json.dumps({k: e[k] for k in e if k != 'id'}, sort_keys=True) for e in evs})
     v.rule = ('(a) lewis_factor of a spur gear for every teeth number 10..520 and the shipped csv row by row against Gear!LewisTable; '
               '(b) every subset of {module, face width, elastic modulus} on both gears x {spur, helical} x {mated, unmated} and every subset of '
               '{worm reference diameter} x {wheel module, face width} x both orientations x four pressure angles x {mated, unmated}: flags, '
-              'ValueError of the contact stress when the mate lacks data; (c) seeded random parameters in random units, torques of either sign, both roles')
+              'ValueError of the contact stress when the mate lacks data; (c) seeded random parameters in random units, torques of either sign, both roles; '
+              '(d) the recorded histories of the shared solver campaign, instant by instant')
     v.extra['flag_space_exhaustive'] = True
     v.sample(evs[600]); v.sample(evs[-1])
     v.assumptions = ['helix angles enter the spec through tan(beta/2) computed with math.tan from the angle the object holds',
